@@ -121,6 +121,16 @@ theorem inv_insertKV {s : St} (h : Inv s) (k v : Nat) : Inv (insertKV s k v) := 
   · simp only [upd_other _ _ _ _ hj] at hw
     exact h1.cached_no_flight j w hw
 
+theorem inv_pinsertKV {s : St} (h : Inv s) (k v : Nat) : Inv (pinsertKV s k v) := by
+  have h1 := inv_takeNotify h k (.val v)
+  unfold pinsertKV
+  refine ⟨h1.waiting, ?_, h1.awaits, h1.waiters_keys⟩
+  intro j w hw
+  by_cases hj : j = k
+  · subst hj; simp [upd_same] at hw
+  · simp only [upd_other _ _ _ _ hj] at hw
+    exact h1.cached_no_flight j w hw
+
 theorem inv_trySetRequired {s : St} (h : Inv s) (k : Nat) (fl : Flight) (hfl : s.flight k = some fl)
     (fr : Option Nat) (r : Res) : Inv (trySetRequired s k fl fr r) := by
   have setSt : ∀ (f : Nat) (don : Option Nat),
@@ -315,6 +325,7 @@ theorem inv_step {s : St} (h : Inv s) (e : Ev) (hwf : e.wf s) : Inv (step s e) :
           | err => exact inv_takeNotify h k .errFetch
         · exact h
   | insert k v => exact inv_insertKV h k v
+  | pinsert k v => exact inv_pinsertKV h k v
   | remove k =>
     simp only [step]
     refine ⟨h.waiting, ?_, h.awaits, h.waiters_keys⟩
